@@ -26,6 +26,7 @@ MAX = int(opt('--max', '100000'))
 SEED = int(opt('--seed', '1'))
 ONLY = opt('--files')
 SKIP_SUITE = '--skip-suite' in args
+RETEST = '--retest' in args
 HOURS = float(opt('--hours', '100'))
 
 FILES = """src/dir_section.rs src/mem_writer.rs src/linux/minidump_writer.rs src/linux/ptrace_dumper.rs
@@ -65,11 +66,26 @@ def candidates(path, text):
     out = []
     depth_skip = False
     skip_item = False
+    skip_other = 0
+    depth = 0
+    opened = False
     for i in range(end):
         l = lines[i]
         s = l.strip()
         if s == '#[cfg(test)]':
             skip_item = True  # a test-only item: skip to the closing brace in column 0
+            continue
+        if skip_other > 0 or (s.startswith('#[cfg(') and re.search(r'target_arch = "(x86|arm|aarch64|mips|mips64)"|target_pointer_width = "32"|target_os = "android"', s) and 'x86_64' not in s and 'not(' not in s):
+            # code for another architecture: dead here, its mutants are trivially equivalent
+            if skip_other == 0:
+                skip_other = 1
+                depth = 0
+                opened = False
+                continue
+            depth += l.count('{') - l.count('}')
+            opened = opened or '{' in l
+            if depth <= 0 and (opened or s.endswith((';', ','))):
+                skip_other = 0
             continue
         if skip_item:
             if l.startswith('}') or (l.rstrip().endswith(';') and not l.startswith(' ')):
@@ -125,6 +141,8 @@ def sh(cmd, cwd=None, timeout=None, env=None):
     except subprocess.TimeoutExpired as e:
         return 124, (e.stdout or '') if isinstance(e.stdout, str) else ''
 
+head = subprocess.run(['git', '-C', '/repo', 'rev-parse', '--short', 'HEAD'], capture_output=True, text=True).stdout.strip()
+vhead = subprocess.run(['git', '-C', '/verif', 'rev-parse', '--short', 'HEAD'], capture_output=True, text=True).stdout.strip()
 os.makedirs(scratch, exist_ok=True)
 REPO = os.path.join(scratch, 'repo')
 VER = os.path.join(scratch, 'verif')
@@ -139,8 +157,6 @@ if not os.path.isdir(VER):
     os.makedirs(VER)
     rc, o = sh('git -C /verif archive HEAD | tar -x -C ' + VER)
     assert rc == 0, o
-head = sh(['git', '-C', '/repo', 'rev-parse', '--short', 'HEAD'])[1].strip()
-vhead = sh(['git', '-C', '/verif', 'rev-parse', '--short', 'HEAD'])[1].strip()
 
 allc = []
 for f in FILES:
@@ -153,12 +169,20 @@ mine = allc[k::n][:MAX]
 os.makedirs('/verif/mutation', exist_ok=True)
 LOG = f'/verif/mutation/log-{k}.jsonl'
 done = set()
-for p in [f'/verif/mutation/{x}' for x in os.listdir('/verif/mutation') if x.endswith('.jsonl')]:
+latest = {}
+for p in sorted(f'/verif/mutation/{x}' for x in os.listdir('/verif/mutation') if x.endswith('.jsonl')):
     for l in open(p):
         try:
-            done.add(json.loads(l)['key'])
+            r = json.loads(l)
+            done.add(r['key'])
+            latest[r['key']] = r
         except Exception:
             pass
+retest_keys = set()
+if RETEST:
+    # survivors recorded against an older /verif are judged again by the current checks (suite step skipped: they passed it)
+    retest_keys = {k for k, r in latest.items() if r.get('result') in ('SURVIVED', 'inconclusive') and r.get('verif') != vhead}
+    done -= retest_keys
 print(f'worker {k}/{n}: {len(allc)} candidate mutants total, {len(mine)} mine; repo {head} verif {vhead}', flush=True)
 IDS = ['C%02d' % i for i in range(1, 21)]
 t_end = time.time() + HOURS * 3600
@@ -168,6 +192,11 @@ sh('cargo test --workspace --no-run --offline', cwd=REPO, env=env, timeout=1800)
 rc, o = sh('./check --build', cwd=VER, env=dict(env, VERIF_REPO=REPO), timeout=1800)
 print('warm build rc', rc, flush=True)
 
+def keyof(m):
+    f, i, j, a, b, kind = m
+    return hashlib.sha1(f'{f}:{i}:{j}:{a}:{b}'.encode()).hexdigest()[:16]
+if RETEST:
+    mine = [m for m in allc[k::n] if keyof(m) in retest_keys] + [m for m in mine if keyof(m) not in retest_keys]
 for (f, i, j, a, b, kind) in mine:
     if time.time() > t_end:
         break
@@ -189,7 +218,7 @@ for (f, i, j, a, b, kind) in mine:
         if rc != 0:
             rec['result'] = 'nocompile'
             continue
-        if not SKIP_SUITE:
+        if not SKIP_SUITE and key not in retest_keys:
             ok = False
             for attempt in range(2):
                 rc, o = sh('cargo test --workspace --no-fail-fast --offline', cwd=REPO, env=env, timeout=900)
